@@ -59,6 +59,8 @@ var gwModelled = []string{
 	"column.notnull / column.pk (int)               go_notnull = Z.b2z (c_notnull ..) / go_pk = Z.of_N (c_pk ..)",
 	"strings.Join(list, sep)                        String.concat sep list",
 	"fmt.Sprintf(\"a%vb\", s)  (one verb, a string)    a ++ s ++ b",
+	"strings.ReplaceAll(s, \"c\", new)  (old = ONE byte below 0x80, a literal)    op_ReplaceAll1 s c new  (every such byte replaced)",
+	"quoteIdentifier(name)  (fix a631213, F20)      wdo t <- gen_quoteIdentifier name   (REGENERATED from its body when the source has it)",
 }
 
 // fuel per function and loop (in order of appearance), over the variables in scope at the loop
@@ -167,6 +169,7 @@ type gw struct {
 	imports  map[string]string // import name -> path
 	methods  map[string]*ast.FuncDecl
 	done     map[string]bool // methods already generated (may be called)
+	strFuncs map[string]int  // package-level functions `func f(a, .. string) string` already generated -> number of parameters
 	world    *gwDecl
 	recv     string
 	fn       string
@@ -623,6 +626,26 @@ func (g *gw) call(env *gwEnv, x *ast.CallExpr, binds *[]string) (gwVal, error) {
 			}
 			return gwVal{code: "(" + a.code + " ++ [" + bc + "])", ty: a.ty}, nil
 		}
+		// a package-level text function of this file that was regenerated before its use (quoteIdentifier)
+		if n, ok := g.strFuncs[id.Name]; ok {
+			if len(x.Args) != n {
+				return gwVal{}, g.errAt(x, "%d arguments for %s", len(x.Args), id.Name)
+			}
+			code := "gen_" + id.Name
+			for _, arg := range x.Args {
+				a, err := g.expr(env, arg, binds)
+				if err != nil {
+					return gwVal{}, err
+				}
+				if a.ty != gwString {
+					return gwVal{}, g.errAt(arg, "argument of %s has type %s, expected string", id.Name, a.ty)
+				}
+				code += " " + a.code
+			}
+			t := g.fresh("t")
+			*binds = append(*binds, fmt.Sprintf("wdo %s <- %s;", t, code))
+			return gwVal{code: t, ty: gwString}, nil
+		}
 		return gwVal{}, g.errAt(x, "unsupported call %s", g.src(x))
 	}
 	sel, ok := x.Fun.(*ast.SelectorExpr)
@@ -653,6 +676,33 @@ func (g *gw) call(env *gwEnv, x *ast.CallExpr, binds *[]string) (gwVal, error) {
 			return gwVal{}, g.errAt(x, "strings.Join of %s, %s", a.ty, b.ty)
 		}
 		return gwVal{code: "(String.concat " + b.code + " " + a.code + ")", ty: gwString}, nil
+	}
+	if g.isPkg(sel.X, "strings", "strings") && sel.Sel.Name == "ReplaceAll" && len(x.Args) == 3 {
+		// strings.ReplaceAll(s, "c", new) with a literal old text of exactly ONE byte below 0x80: the occurrences of such a
+		// byte cannot overlap and it is never part of a multi-byte UTF-8 sequence, so every such byte is replaced
+		a, err := g.expr(env, x.Args[0], binds)
+		if err != nil {
+			return gwVal{}, err
+		}
+		lit, ok := x.Args[1].(*ast.BasicLit)
+		if !ok || lit.Kind != token.STRING {
+			return gwVal{}, g.errAt(x, "strings.ReplaceAll: the text to replace must be a literal")
+		}
+		old, err := strconv.Unquote(lit.Value)
+		if err != nil {
+			return gwVal{}, err
+		}
+		if len(old) != 1 || old[0] < 32 || old[0] > 126 {
+			return gwVal{}, g.errAt(x, "strings.ReplaceAll: only a text of one printable ASCII byte can be replaced (got %q)", old)
+		}
+		c, err := g.expr(env, x.Args[2], binds)
+		if err != nil {
+			return gwVal{}, err
+		}
+		if a.ty != gwString || c.ty != gwString {
+			return gwVal{}, g.errAt(x, "strings.ReplaceAll of %s, %s", a.ty, c.ty)
+		}
+		return gwVal{code: "(op_ReplaceAll1 " + a.code + " " + coqString(old) + "%char " + c.code + ")", ty: gwString}, nil
 	}
 	if g.isPkg(sel.X, "fmt", "fmt") && sel.Sel.Name == "Sprintf" && len(x.Args) == 2 {
 		// fmt.Sprintf("..%v..", s) with ONE verb (%v or %s) and a string argument: the text around the verb and the string
@@ -1711,6 +1761,48 @@ func (g *gw) sqlFunc(f *ast.File, name string) (string, error) {
 		g.fset.Position(fd.Pos()).Line, g.recv, name, name, rd.coq, body), nil
 }
 
+// strFunc: a package-level function `func name(p1, .. string) string` that only builds a text (quoteIdentifier): no world,
+// no receiver, one result.  Once generated it may be called from the SQL text methods.
+func (g *gw) strFunc(fd *ast.FuncDecl) (string, error) {
+	name := fd.Name.Name
+	if fd.Recv != nil || fd.Body == nil || fd.Type.TypeParams != nil || fd.Type.Results == nil || len(fd.Type.Results.List) != 1 ||
+		len(fd.Type.Results.List[0].Names) != 0 || types.ExprString(fd.Type.Results.List[0].Type) != "string" {
+		return "", g.errAt(fd, "%s is not func %s(.. string) string", name, name)
+	}
+	g.fn, g.n, g.loopN, g.declN, g.retTy = name, 0, 0, map[string]int{}, gwString
+	g.recv = ""
+	g.ownership(fd)
+	env := &gwEnv{vars: map[string]*gwDecl{}}
+	g.world = &gwDecl{name: "", coq: "wld", ty: gwWorld, seq: 0}
+	var sig []string
+	for _, f := range fd.Type.Params.List {
+		if types.ExprString(f.Type) != "string" {
+			return "", g.errAt(f, "%s: parameter of type %s, expected string", name, types.ExprString(f.Type))
+		}
+		for _, n := range f.Names {
+			if n.Name == "_" {
+				return "", g.errAt(f, "unnamed parameter")
+			}
+			d := g.declare(env, n.Name, gwString)
+			sig = append(sig, fmt.Sprintf("(%s : string)", d.coq))
+		}
+	}
+	if len(sig) == 0 {
+		return "", g.errAt(fd, "%s has no parameter", name)
+	}
+	missing := func() (string, error) { return "", g.errAt(fd, "%s can end without a return", name) }
+	body, err := g.block(env.child(), fd.Body.List, gwCtx{top: true, fall: missing})
+	if err != nil {
+		return "", err
+	}
+	if strings.Contains(body, "wld") || g.pre.Len() > 0 {
+		return "", g.errAt(fd, "%s touches the database", name)
+	}
+	g.strFuncs[name] = len(sig)
+	return fmt.Sprintf("(* gpkg.go:%d func %s *)\nDefinition gen_%s %s : wres string :=\n  %s.\n\n",
+		g.fset.Position(fd.Pos()).Line, name, name, strings.Join(sig, " "), body), nil
+}
+
 // checkStruct: the struct has (at least) the named fields with exactly these types
 func gwCheckStruct(f *ast.File, name string, want map[string]string) error {
 	for _, d := range f.Decls {
@@ -1815,13 +1907,26 @@ func genGpkgWriter(repo string) (string, error) {
 		b.WriteString("     " + strings.ReplaceAll(m, "*", "ptr ") + "\n")
 	}
 	b.WriteString("*)\n")
-	b.WriteString("From Coq Require Import ZArith NArith List Bool String.\nFrom Texel Require Import Gpkg.Model Gpkg.WriterOps.\nImport ListNotations.\nOpen Scope Z_scope.\n\n")
+	b.WriteString("From Coq Require Import ZArith NArith List Bool String Ascii.\nFrom Texel Require Import Gpkg.Model Gpkg.WriterOps.\nImport ListNotations.\nOpen Scope Z_scope.\n\n")
 	for _, m := range []string{"writeFeatures", "WriteFeatures"} {
 		s, err := g.method(m)
 		if err != nil {
 			return "", err
 		}
 		b.WriteString(s)
+	}
+	// the identifier quoting of fix a631213 (F20): regenerated from its body when the source has it, and then callable
+	// from the three SQL text methods.  A source without it (the repair undone) yields texts with bare names, and no
+	// gen_quoteIdentifier: Gpkg/ProofsGenWriter.v stops checking.
+	g.strFuncs = map[string]int{}
+	for _, d := range f.Decls {
+		if fd, ok := d.(*ast.FuncDecl); ok && fd.Recv == nil && fd.Name.Name == "quoteIdentifier" {
+			s, err := g.strFunc(fd)
+			if err != nil {
+				return "", err
+			}
+			b.WriteString(s)
+		}
 	}
 	for _, m := range []string{"createSQL", "selectSQL", "insertSQL"} {
 		s, err := g.sqlFunc(f, m)
